@@ -245,4 +245,11 @@ def rm_no_process_lifetime_results(ctx: Ctx) -> None:
     state_rule(ctx)
 
 
-RULES = [r1_field_packing, r2_directive_chain, r3_order_and_multiplicity, r4_text_and_binary, r5_layout_agreement, r6_address_advance, rb_binding_agreement, rm_no_process_lifetime_results]
+def ru_names_bound(ctx: Ctx) -> None:
+    """a local read but never bound raises NameError for every input that reaches the statement (shared rule, names.py)"""
+    from ..names import names_rule
+
+    names_rule(ctx)
+
+
+RULES = [r1_field_packing, r2_directive_chain, r3_order_and_multiplicity, r4_text_and_binary, r5_layout_agreement, r6_address_advance, rb_binding_agreement, rm_no_process_lifetime_results, ru_names_bound]
